@@ -2,6 +2,7 @@ package props
 
 import (
 	"fmt"
+	"strings"
 
 	"github.com/openacid/low/sigbits"
 
@@ -61,6 +62,7 @@ func init() {
 				{Name: "countprefixes-medium", Env: 2, N: c.Pick(150, 15000), Run: c16CountMedium},
 				{Name: "long-keys", Env: 2, N: len(c16LongLens) * c.Pick(2, 200), Run: c16LongKeys},
 				{Name: "many-keys", Env: 1, N: c.Pick(1, 12), Run: c16ManyKeys},
+				{Name: "deep-chains", N: c.Pick(8, 80), Run: c16Chains},
 				lrFamily(c16LongRun),
 			}
 		},
@@ -534,4 +536,70 @@ func c16ManyKeys(w *mon.W, idx int) {
 	w.Sample(func() interface{} {
 		return mon.D{"nkeys": n, "what": "more than 2^18 ascending keys under a common prefix"}
 	})
+}
+
+// c16Chains (round 14): key sets with hundreds of NESTED branch points on one path - a prefix chain ("a", "aa", "aaa", ...)
+// or a comb ("a", "ba", "bba", ...) of 200-600 keys closed by a key that differs early - FirstDiffBits on the list and
+// CountPrefixes over ranges that start inside the chain and reach past its end (a monotonic stack of fixed depth 256 with
+// a uint8 index was seeded: random keys have logarithmic nesting depth).
+func c16Chains(w *mon.W, idx int) {
+	r := w.Rng
+	n := []int{200, 255, 256, 257, 258, 300, 511, 600}[idx%8]
+	ch := byte('a' + idx%3)
+	var keys []string
+	if idx%2 == 0 {
+		for i := 1; i <= n; i++ {
+			keys = append(keys, strings.Repeat(string(ch), i))
+		}
+	} else {
+		for i := 0; i < n; i++ {
+			keys = append(keys, strings.Repeat(string(ch+1), i)+string(ch))
+		}
+	}
+	keys = append(keys, string(ch+2), string(ch+2)+"x")
+	keys = gen.SortedUnique(keys)
+	if !c16CheckList(w, keys) {
+		return
+	}
+	sb := sigbits.New(keys)
+	nk := len(keys)
+	for q := 0; q < 10; q++ {
+		s, e := r.Intn(nk-1), nk
+		if q%3 == 1 {
+			e = s + 2 + r.Intn(nk-s-1)
+		}
+		if q == 0 {
+			s = 0
+		}
+		if q == 1 {
+			s = 3
+		}
+		m := r.Pick(1, 8, 12, 16)
+		w.Op, w.A, w.B, w.C = "CountPrefixes(deep chain)", int64(s), int64(e), int64(m)
+		gm, gc := sb.CountPrefixes(int32(s), int32(e), int32(m))
+		m0 := 1 << 30
+		for i := s; i < e-1; i++ {
+			if d := c16FirstDiff(keys[i], keys[i+1]); d < m0 {
+				m0 = d
+			}
+		}
+		w.Eval(1)
+		if int(gm) != m0 || len(gc) != m {
+			w.Fail("CountPrefixes/min", mon.D{"nkeys": nk, "shape": []string{"chain", "comb"}[idx%2], "s": s, "e": e, "m": m, "got": gm, "expected": m0})
+			return
+		}
+		for i := 0; i < m; i++ {
+			set := map[string]struct{}{}
+			for _, k := range keys[s:e] {
+				set[c16Trunc(k, m0+i)] = struct{}{}
+			}
+			if int(gc[i]) != len(set) {
+				w.Fail("CountPrefixes/counter", mon.D{"nkeys": nk, "shape": []string{"chain", "comb"}[idx%2], "s": s, "e": e, "m": m, "i": i, "got": gc[i], "expected": len(set)})
+				return
+			}
+		}
+	}
+	w.Bucket("keys/nesting-depth>=200")
+	w.Distinct(gen.Hash64(0x2b16, uint64(idx)))
+	w.Sample(func() interface{} { return mon.D{"nkeys": nk, "shape": []string{"chain", "comb"}[idx%2]} })
 }
